@@ -168,6 +168,40 @@ theorem C19_bundle_limit (e : Events σ ε) (d : Pkt) (inner more : List Pkt) (s
   simp only [handleGame, List.length_cons, handleGameF, hd, if_true]
   rw [collect_limit inner bundleLimit [] more hn hl]
 
+/--
+  **C19_bundle_error.** A handler fails on packet `q` inside a bundle `pre ++ q :: post` (everything in `pre`
+  handled without error): that `HandleGame` call ends with the handler's error in the state right after the failing
+  handler — NO packet of `post` is dispatched, then or later — and what the connection still holds is exactly what
+  followed the closing delimiter. A resumed `HandleGame` therefore continues with `rest` only, outside any bundle
+  and with an empty bundle buffer (the next call is a function of `rest` and the state alone): nothing of the old
+  bundle is dispatched again.
+-/
+theorem C19_bundle_error (e : Events σ ε) (d d' q : Pkt) (pre post rest : List Pkt) (st st1 st2 : σ)
+    (id : Int) (err : ε) (hd : d.id = bundleDelimiter) (hd' : d'.id = bundleDelimiter)
+    (hn : NoDelim (pre ++ q :: post)) (hl : (pre ++ q :: post).length < bundleLimit)
+    (hpre : handleAll e pre st = (st1, none)) (hq : handlePacket e q st1 = (st2, some (.handler id err))) (n : Nat) :
+    handleGameRest e (d :: ((pre ++ q :: post) ++ d' :: rest)) st = (st2, .handler id err, rest) ∧
+    resume e (n + 1) (d :: ((pre ++ q :: post) ++ d' :: rest)) st =
+      ((resume e n rest st2).1, .handler id err :: (resume e n rest st2).2) := by
+  have h := handleGameRest_bundle_error e d d' q pre post rest st st1 st2 _ hd hd' hn hl hpre hq
+  refine ⟨h, ?_⟩
+  simp only [resume, h]
+
+/-- the same for a plain packet: after a failing handler the next call sees exactly the packets that followed it -/
+theorem C19_plain_error (e : Events σ ε) (p : Pkt) (ps : List Pkt) (st st' : σ) (id : Int) (err : ε)
+    (hp : p.id ≠ bundleDelimiter) (hq : handlePacket e p st = (st', some (.handler id err))) (n : Nat) :
+    handleGameRest e (p :: ps) st = (st', .handler id err, ps) ∧
+    resume e (n + 1) (p :: ps) st = ((resume e n ps st').1, .handler id err :: (resume e n ps st').2) := by
+  have h : handleGameRest e (p :: ps) st = (st', .handler id err, ps) := by
+    simp only [handleGameRest, List.length_cons, handleGameR, hp, if_false, hq]
+  refine ⟨h, ?_⟩
+  simp only [resume, h]
+
+/-- a single call of the resumable loop is `HandleGame` (the two transcriptions of the game loop agree) -/
+theorem C19_resume_first_call (e : Events σ ε) (ps : List Pkt) (st : σ) :
+    ((handleGameRest e ps st).1, (handleGameRest e ps st).2.1) = handleGame e ps st :=
+  handleGameR_proj e _ ps st
+
 /-- outside bundles the loop handles one packet at a time, in arrival order, and stops with the first error;
     when the connection ends it returns the read error -/
 theorem C19_game_loop (e : Events σ ε) (p : Pkt) (ps : List Pkt) (st : σ) (hp : p.id ≠ bundleDelimiter) :
@@ -293,6 +327,13 @@ example :
     (match register (newEvents 8) exCalls with
      | .ok ev => some (handlePacket ev { id := 5, data := [] } [])
      | _ => none) = some ([3, 2, 4, 1, 5], some (End.handler 5 5)) := by decide
+
+/-- resumed run: the second packet of the first bundle fails, the third is dropped, the second bundle is handled
+    on its own by the next call -/
+example :
+    (match register (newEvents 8) [.listener [exHandler 1 0 1 false, exHandler 2 0 2 true, exHandler 3 0 3 false]] with
+     | .ok ev => some (resume ev 3 [⟨0, []⟩, ⟨1, []⟩, ⟨2, []⟩, ⟨3, []⟩, ⟨0, []⟩, ⟨0, []⟩, ⟨3, []⟩, ⟨1, []⟩, ⟨0, []⟩] [])
+     | _ => none) = some ([1, 2, 3, 1], [End.handler 2 2, End.readErr]) := by decide
 
 example : Gate.Cfg := { threshold := 64, checker := none, ouuid := fun n => n, statusJson := fun _ => [] }
 
